@@ -67,6 +67,7 @@ def custom_configs(tier):
     cfgs = [
         ("bare-edge", [2], [bare_edge], [lambda: "2-clique"], [[0]]),
         ("one-edge-list", [2], [single_edge_list], [lambda: ["e"]], [[0]]),
+        ("bare-edge-tuple-name", [2], [bare_edge], [lambda: ("2-clique",)], [[0]]),
         ("two-edge-path", [3], [path3], [lambda: ("p01", "p12")], [[0]]),
         ("triangle", [3], [tri_tuple], [lambda: ("3-clique", "3-clique", "3-clique")], [[0]]),
         ("bare-edge+triangle", [2, 3], [bare_edge, tri_tuple],
@@ -343,6 +344,15 @@ def check_c02(obs, meta, leaf):
     returns = [(j, as_edges(r)) for j, _, r in obs["log"] if len(as_edges(r))]
     if len(groups) != len(returns):
         return (f"C02:id-groups:{meta['kind']}", f"{len(groups)} distinct motif ids for {len(returns)} motif instances")
+    # every topology must label as many motif instances as the joint degree sequence prescribes for it
+    exp = expected_counts(meta)
+    for j, want_n in enumerate(exp):
+        got_n = sum(1 for jj, edges in returns if jj == j)
+        n_edges_known = all(len(as_edges(r)) for jj, _, r in obs["log"] if jj == j)
+        if n_edges_known and got_n != want_n:
+            return (f"C02:instances-per-topology:{meta['kind']}",
+                    f"topology {j} carries its name on {got_n} motif instances, the joint degree sequence prescribes "
+                    f"{want_n}")
     pool = list(returns)
     for m, rows in groups.items():
         got = [tuple(el[i]) for i in rows]
